@@ -4,3 +4,4 @@ import Thanos.Props.C01
 import Thanos.Props.C02
 import Thanos.Props.C04
 import Thanos.Props.C40
+import Thanos.Lemmas.FirstFit
